@@ -55,9 +55,9 @@ def C11_1(ctx, facts):
                 ctx.check(m in ("pop_front", "iter_mut", "into_iter", "clear"), "SocketAddrs.0|%s|%s" % (g.nkey.split("::")[-1], m), "address list consumed front to back (%s)" % m,
                           "address list mutated through %s" % norm(c.name), c.where())
     ctx.floor("SocketAddrs.0|mutators", m2, 2, "mutating accesses to SocketAddrs.0 outside sort_preferred")
-    pop = facts.fn("client::conn::dns::SocketAddrs::pop")
+    pop = facts.unit(facts.fn("client::conn::dns::SocketAddrs::pop"))
     ctx.check(any(c.matches(r"VecDeque.*::pop_front$") for c in pop.calls()), "SocketAddrs::pop|front", "SocketAddrs::pop takes the front element", "SocketAddrs::pop does not pop the front", pop.where())
-    f = facts.fn("client::conn::transport::tcp::TcpConnecting::connect::{closure#0}")
+    f = facts.unit(facts.fn("client::conn::transport::tcp::TcpConnecting::connect::{closure#0}"))
     ctx.touched(f)
     pops = f.calls("client::conn::dns::SocketAddrs::pop")
     pushes = f.calls("happy_eyeballs::EyeballSet::push")
@@ -69,7 +69,7 @@ def C11_1(ctx, facts):
                   "each attempt pushed is built from the address just popped (one push per pop, same order)", "pushed attempt roots %s" % sorted(map(repr, sig(rr)))[:6], c.where())
         ok, w = f.must_pass(0, [c.bb], {p.bb for p in pops})
         ctx.check(ok, "TcpConnecting::connect|pop-before-push", "a pop precedes every push", "push reachable without a pop", c.where(), f.path_desc(w))
-    es = facts.fn("happy_eyeballs::EyeballSet::push")
+    es = facts.unit(facts.fn("happy_eyeballs::EyeballSet::push"))
     ctx.check(any(c.matches(r"VecDeque.*::push_back$") for c in es.calls()), "EyeballSet::push|back", "EyeballSet::push appends at the back", "EyeballSet::push does not push_back", es.where())
 
 
@@ -160,7 +160,7 @@ def every_popped_started(ctx, facts):
 
 
 def C11_6(ctx, facts):
-    f = facts.fn("client::conn::transport::tcp::TcpConnecting::connect::{closure#0}")
+    f = facts.unit(facts.fn("client::conn::transport::tcp::TcpConnecting::connect::{closure#0}"))
     new = f.calls("happy_eyeballs::EyeballSet::new")
     ctx.floor("TcpConnecting::connect|EyeballSet::new", len(new), 1, "EyeballSet::new")
     for c in new:
@@ -183,7 +183,7 @@ def C11_6(ctx, facts):
             rr = body.roots(divs[0].args[1])
             okd = any(r.kind == "call" and r.site.is_("client::conn::dns::SocketAddrs::len") for r in rr)
         ctx.check(okd, "TcpConnecting::connect|delay-is-timeout-over-len", "delay = timeout / number of addresses", "delay closure is not duration / addresses.len()", c.where())
-    en = facts.fn("happy_eyeballs::EyeballSet::new")
+    en = facts.unit(facts.fn("happy_eyeballs::EyeballSet::new"))
     for (b, i, s) in en.aggregates("happy_eyeballs::EyeballSet"):
         r = s["r"]
         ops = dict(zip(r["fields"], r["ops"]))
